@@ -660,7 +660,7 @@ func runC04(c *Ctx) {
 		}
 	}
 	// random profiles x sampled option combinations x forms
-	nprof := c.Budget(130, 4000)
+	nprof := c.Budget(120, 2000)
 	for k := 0; k < nprof; k++ {
 		kn := c04Knobs(r)
 		textable := r.P(2, 3)
